@@ -161,11 +161,22 @@ class Recorder:
         self.trace.append(["req", n, req, ok])
         return ok
 
+    def num(self, x):
+        """scenario flag intArgs: integral quantities are handed over as Python ints (a protocol that
+        writes `schedule_timer("a", 3)` or `GotoCoordsMobilityCommand(10, 0, 5)` is using the API legitimately)"""
+        if self.scn.get("intArgs") and isinstance(x, float) and x.is_integer() and abs(x) < 2.0 ** 53 \
+                and not (x == 0 and str(x).startswith("-")):
+            return int(x)
+        return x
+
     def perform(self, proto, req):
         p = proto.provider
         op = req[0]
+        if self.scn.get("pollDone") and self.sim is not None:
+            # the public, side-effect free status query, asked from inside callbacks as a UI would
+            self.sim.is_simulation_done()
         if op == "setTimer":
-            p.schedule_timer(req[1], req[2] / self.tick)
+            p.schedule_timer(req[1], self.num(req[2] / self.tick))
         elif op == "cancelTimer":
             p.cancel_timer(req[1])
         elif op == "send":
@@ -173,17 +184,17 @@ class Recorder:
         elif op == "broadcast":
             p.send_communication_command(self.command(proto, "broadcast", req[1], None))
         elif op == "goto":
-            p.send_mobility_command(GotoCoordsMobilityCommand(*bitsv3(req[1:4])))
+            p.send_mobility_command(GotoCoordsMobilityCommand(*[self.num(c) for c in bitsv3(req[1:4])]))
         elif op == "gotoGeo":
             p.send_mobility_command(GotoGeoCoordsMobilityCommand(*bitsv3(req[1:4])))
         elif op == "setSpeed":
-            p.send_mobility_command(SetSpeedMobilityCommand(bitsf(req[1])))
+            p.send_mobility_command(SetSpeedMobilityCommand(self.num(bitsf(req[1]))))
         elif op == "setRange":
             ctl = self.controllers.get(id(proto))
             if ctl is None:
                 ctl = CommunicationController(proto)
                 self.controllers[id(proto)] = ctl
-            ctl.set_transmission_range(bitsf(req[1]))
+            ctl.set_transmission_range(self.num(bitsf(req[1])))
         else:
             raise ValueError(f"unknown request {op}")
 
@@ -247,6 +258,8 @@ def _hooks_for(rec, label, sampler):
             raise Runaway(f"more than {rec.hard_cap} observations")
         if sampler:
             rec.sample_positions()
+        if rec.scn.get("pollDone") and rec.sim is not None:
+            rec.sim.is_simulation_done()
         return super(holder["cls"], self).after_simulation_step(iteration, timestamp)
 
     def finalize(self):
@@ -325,17 +338,26 @@ def build(scn, rec, sim_options=None):
     opts = dict(execution_logging=False)
     opts.update(scn.get("simOptions") or {})
     opts.update(sim_options or {})
-    conf = SimulationConfiguration(
-        duration=None if cfg["duration"] is None else cfg["duration"] / rec.tick,
-        max_iterations=cfg["maxIter"], **opts)
+    duration = None if cfg["duration"] is None else cfg["duration"] / rec.tick
+    late = bool(scn.get("lateConfig"))
+    # scenario flag lateConfig: the configuration object is handed to the builder first and its bounds
+    # are filled in afterwards (the simulator reads the user's configuration object when it needs a bound)
+    conf = SimulationConfiguration(duration=None if late else duration,
+                                   max_iterations=None if late else cfg["maxIter"], **opts)
     builder = SimulationBuilder(conf)
     for i, label in enumerate(cfg["handlers"]):
         builder.add_handler(make_handler(rec, label, cfg, sampler=(i == 0 and scn.get("wantPos", False))))
     proto = make_protocol_class(rec)
     ids = []
     for i in range(cfg["nNodes"]):
-        ids.append(builder.add_node(proto, bitsv3(cfg["initPos"][i])))
+        # scenario flag distinctProtos: every node runs its own protocol class (sensor / UAV / ground station)
+        cls = type(f"TableProtocol{i}", (proto,), {}) if scn.get("distinctProtos") else proto
+        ids.append(builder.add_node(cls, bitsv3(cfg["initPos"][i])))
+    if late and scn["lateConfig"] == "beforeBuild":
+        conf.duration, conf.max_iterations = duration, cfg["maxIter"]
     sim = builder.build()
+    if late and scn["lateConfig"] != "beforeBuild":
+        conf.duration, conf.max_iterations = duration, cfg["maxIter"]
     rec.sim = sim
     rec.added_ids = ids
     return sim
@@ -357,6 +379,10 @@ class Shadow:
         s2 = copy.deepcopy({k: v for k, v in scn.items() if k not in ("shadow", "prestart", "simOptions")})
         s2["cfg"]["failRate"] = fbits(0.0)
         s2["cfg"]["maxIter"] = None
+        if sh.get("defaultRange"):
+            s2["cfg"]["defaultRange"] = sh["defaultRange"]
+        for k in ("lateConfig", "pollDone"):
+            s2.pop(k, None)
         if sh.get("refGeo"):
             s2["cfg"]["refGeo"] = sh["refGeo"]
         s2["wantPos"] = False
@@ -410,6 +436,8 @@ def run_impl(scn, behaviour=None, sim_options=None, draw_seed=0, keep_logging=Fa
                 if not keep_logging:
                     quiet_logging()
                 shadow.step(scn["shadow"].get("lead", 0))
+            if scn.get("pollDone"):
+                sim.is_simulation_done()       # status query before the first step
             for row in scn.get("prestart", []):
                 # requests through the provider after build() and before the first step
                 proto = sim.get_node(row["n"]).protocol_encapsulator.protocol
